@@ -591,3 +591,45 @@ func ReplayFile(path string) (check string, fails []Failure, err error) {
 	fails, err = fn(rec.Case)
 	return rec.Check, fails, err
 }
+
+var knownCache = map[string]map[string]bool{}
+
+// Unlisted filters out failures whose signature is an open known finding of the property
+// (for callers outside a Session, e.g. native fuzz targets).
+func Unlisted(prop string, fails []Failure) []Failure {
+	k, ok := knownCache[prop]
+	if !ok {
+		k = map[string]bool{}
+		for _, e := range LoadKnown(Root()) {
+			if e.Property == prop && e.Open {
+				for _, sg := range e.Sigs {
+					k[sg] = true
+				}
+			}
+		}
+		knownCache[prop] = k
+	}
+	var out []Failure
+	for _, f := range fails {
+		known := k[f.Sig]
+		if !known {
+			for p := range k {
+				if strings.Contains(p, "*") && Glob(p, f.Sig) {
+					known = true
+					break
+				}
+			}
+		}
+		if !known {
+			out = append(out, f)
+		}
+	}
+	return out
+}
+
+// RunOnce runs a check on one case outside a session and returns all failures.
+func RunOnce[C any](c *Check[C], cs C) []Failure {
+	o := &Obs{}
+	runGuarded(c, cs, o)
+	return o.fails
+}
